@@ -164,7 +164,9 @@ static void OpFire(long long dt, int viaTimer)
 	l_Notifs.clear();
 	int paused = l_W.obj->IsPaused() ? 1 : 0;
 	int enabled = l_W.obj->GetEnableNotifications() ? 1 : 0;
-	int statesupp = l_W.obj->NotificationReasonSuppressed(NotificationProblem) ? 1 : 0;
+	/* the suppression reasons of the property, from the primitive predicates (not from
+	 * NotificationReasonSuppressed(), which is part of the code under test) */
+	int statesupp = (!l_W.obj->IsReachable(DependencyNotification) || l_W.obj->IsInDowntime() || l_W.obj->IsAcknowledged()) ? 1 : 0;
 	int indt = l_W.obj->IsInDowntime() ? 1 : 0;
 	int isflap = l_W.obj->IsFlapping() ? 1 : 0;
 	int likely = l_W.obj->IsLikelyToBeCheckedSoon() ? 1 : 0;
